@@ -13,7 +13,8 @@ LEVEL = "proof"
 LEVEL_TEXT = ("Coq theorems for all rational sequences: the modelled index equals (sum|successive changes| - (max-min))/(N-2), is non-negative, "
               "zero exactly for monotone sequences, invariant under shift/negation/reversal, scales with |c|, is NaN iff a NaN is present; the "
               "angular range lies in [0,180]; the code-faithful model of the sector routine equals 360 minus the largest circular gap and is "
-              "rotation invariant; proportion-exceeding is the fraction of valid indices >= the threshold. The model (reductions along the "
+              "rotation invariant; proportion-exceeding is the fraction of valid indices >= the threshold for every threshold that is not NaN "
+              "(1 at -inf, 0 at +inf). The model (reductions along the "
               "sampling dimension, selections, sector routine, discretisation) is a hand model tied to flip_flop_impl.py by a correspondence "
               "check on every run; angular_difference is regenerated from functions.py (site S1). Proof is the right level because the "
               "deciding inputs are ties (equal gaps, exactly-180 gaps, antipodal pairs, duplicates) that samples seldom hit.")
@@ -24,14 +25,23 @@ SITES = ["S1", "C18.exceed"]
 RULE = ("sequences of length 1-8 on the dyadic grid k/4 (|k|<=32) with forced ties, monotone runs and NaN slots; angle sets on a 22.5-degree "
         "grid shifted beyond +-360 with antipodal pairs, duplicates and dyadic rotations (non-multiples of 10 degrees); arrays with 1-2 extra "
         "dims stored in shuffled coordinate order; selections by coordinate label (repeats, absent labels); thresholds including exact index "
-        "values; linear series, arrays, selections and proportion-exceeding inputs (data and thresholds) multiplied by 2**e, -40 <= e <= 40 and a few "
+        "values and the catch-all bin edges -inf / +inf (also repeated, which is refused); linear series, arrays, selections and proportion-exceeding inputs (data and thresholds) multiplied by 2**e, -40 <= e <= 40 and a few "
         "exponents up to +-200 (exact in binary64), plus factors that are not powers of two from 1e-12 to 1e12, compared relative to the "
         "magnitude of the data with no absolute floor. A case is distinct by the hash of (function, inputs, options) and non-trivial when at least one output value is finite")
 ASSUMPTIONS = ["labels along the sampling dimension are unique integers (xarray .sel on a unique index)",
-               "inf inputs are outside the property's domain for the theorems (the model and the tie do cover them)"]
+               "infinite DATA values are outside the property's domain for the theorems (the model and the tie do cover them); infinite THRESHOLDS are "
+               "inside (C18_proportion_exceeding_any_threshold)"]
 TRUSTED = ["hand model of xarray shift / sum(skipna) / max,min(skipna=False) / sel / mean used by flip_flop_impl.py (validated by correspondence)"]
 
+# counters every complete run must have incremented (one per predicate family / input class; core.run_check reports a
+# family that silently never ran)
+EXPECT_COUNTS = ["known_corpus", "kernel_grid_points", "kernel:exceed:infinite", "grid45_sequences", "seq:angular", "seq:linear", "seq:with_nan",
+                 "invariance", "rotation", "seq:int-dtype:", "array_oracle", "magnitude:2^", "magnitude:selections", "magnitude:proportion",
+                 "magnitude:proportion:infinite-threshold", "ff_array", "ff_array:scaled", "ff_selections", "sector:ok", "prop:ok", "prop:scaled",
+                 "prop:infinite-threshold", "prop:spec"]
+
 NAN = float("nan")
+INF = float("inf")
 
 
 def S():
@@ -362,6 +372,7 @@ def magnitude_seq(ctx, ff, vals0, e, rng, model=True, factors=None):
     sels = gen_selections(rng, labels, bad_p=0.0)
     res = core.call_impl(ff.flip_flop_index, seq_da(vals, labels), "t", **sels)
     ctx.case(("mag-sel", tuple(vals0), e, repr(sels)))
+    ctx.count("magnitude:selections")
     if res[0] != "ok":
         ctx.violation("flip_flop_index with selections raises", dict(case, labels=labels, selections=sels), "values", res[1])
         return
@@ -418,6 +429,11 @@ def magnitude_proportion(ctx, ff, rng):
     thr = exact_thresholds(rng, [q for qs in idx.values() for q in qs])
     if not thr:
         return
+    # catch-all bin edges: -inf below / +inf above the finite thresholds (half of the cases)
+    r = rng.random()
+    if r < 0.5:
+        thr = ([-INF] if r < 0.35 else []) + thr + ([INF] if r > 0.15 else [])
+        ctx.count("magnitude:proportion:infinite-threshold")
     tf = [float(t) for t in thr]
     kw = {k: v for k, v in sels.items() if v is not None}
     case = {"data": gens.da_repr(da), "sampling_dim": "t", "thresholds": tf, "selections": kw, "exponents_of_two": es}
@@ -427,17 +443,32 @@ def magnitude_proportion(ctx, ff, rng):
     if res[0] != "ok":
         ctx.violation("flip_flop_index_proportion_exceeding raises", case, "values", res[1])
         return
-    for k in sels:
-        if k == "all" and kw:
-            continue
-        out = res[1][k] if kw else res[1]
+    from scores.processing import proportion_exceeding
+    outs = {k: (res[1][k] if kw else res[1]) for k in sels if not (k == "all" and kw)}
+    if not kw:
+        # the building block itself on the index values (a public function of scores.processing)
+        direct = core.call_impl(lambda: proportion_exceeding(ff.flip_flop_index(da, "t"), tf))
+        if direct[0] != "ok":
+            ctx.violation("proportion_exceeding raises on valid thresholds", case, "values", direct[1])
+        else:
+            outs["all[proportion_exceeding]"] = direct[1]
+            idx["all[proportion_exceeding]"] = idx["all"]
+    for k, out in outs.items():
         valid = [q for q in idx[k] if not isinstance(q, float)]
-        for t, t_f in zip(thr, tf):
+        gs = []
+        for j, (t, t_f) in enumerate(zip(thr, tf)):
             want = Fraction(sum(1 for q in valid if q >= t), len(valid)) if valid else NAN
-            g = float(out.sel(threshold=t_f).values.ravel()[0])
+            g = float(out.isel(threshold=j).values.ravel()[0])
+            gs.append(g)
             if not core.close(g, want):
-                ctx.violation("proportion exceeding differs from the fraction of valid indices >= threshold (small / large magnitude data)",
+                ctx.violation("proportion exceeding differs from the fraction of valid indices >= threshold (small / large magnitude data; "
+                              "only a NaN index is invalid, -inf / +inf are ordinary thresholds)",
                               dict(case, selection=k, threshold=t_f, exact_index_values=[str(q) for q in idx[k]]), str(want), g)
+                break
+        else:
+            if valid and (any(np.isnan(gs)) or any(b > a for a, b in zip(gs, gs[1:]))):
+                ctx.violation("proportion exceeding is NaN although valid indices exist, or increases with the threshold",
+                              dict(case, selection=k, exact_index_values=[str(q) for q in idx[k]]), "non-increasing, not NaN", gs)
 
 
 def magnitude_stream(ctx, ff, rng, nseq, nprop, model=True):
@@ -504,6 +535,7 @@ def invariances(ctx, ff, vals, rng, c=None, k=None):
     base = float(ff.flip_flop_index(da, "t"))
     c = float(gens.grid_value(rng, 4, 8)) if c is None else c
     k = float(Fraction(rng.randint(-12, 12), 4)) if k is None else k
+    ctx.count("invariance")
     rel = [("shift", [v + c for v in vals], base), ("negate", [-v for v in vals], base),
            ("reverse", list(reversed(vals)), base), ("scale", [k * v for v in vals], abs(k) * base)]
     for name, w, expect in rel:
@@ -544,6 +576,7 @@ def known_cases(ctx, ff):
     for dtype in ("uint16", "uint8", "uint32"):
         seq_oracle(ctx, ff, [10.0, 20.0, 30.0], dtype)          # uint16: sector 4 / index 16 instead of 20 / 0; uint8: OverflowError
     seq_oracle(ctx, ff, [50.0, 20.0, 40.0, 80.0], "uint8")      # docstring example stored as uint8: linear index 15
+    ctx.count("known_corpus", 6)
 
 
 def rotation(ctx, ff, vals, rng, rot=None):
@@ -559,6 +592,7 @@ def rotation(ctx, ff, vals, rng, rot=None):
     sa = float(ff.encompassing_sector_size(seq_da(vals), []))
     sb = float(ff.encompassing_sector_size(seq_da(w), []))
     ctx.case(("rot", tuple(vals), rot))
+    ctx.count("rotation")
     # rounding in `+ rot` / `% 360` can split one direction into two that differ by noise: the recorded defect
     key = FINDING if near_duplicates(w) and not near_duplicates(vals) else None
     for name, x, y in (("angular flip_flop_index", a, b), ("encompassing_sector_size", sa, sb)):
@@ -651,6 +685,14 @@ def prop_level(ctx, ff, rng, i):
         # thresholds equal to index values (only dyadic ones: a threshold must be the same rational for code and model)
         pool += [float(v) for v in np.asarray(base[1].values, float).ravel() if np.isfinite(v) and float(v * pow2(-e) * 64).is_integer()]
     thr = sorted(rng.sample(pool, min(len(pool), rng.randint(1, 3))))
+    # -inf / +inf are legitimate thresholds (catch-all bin edges): every valid index is >= -inf, none is >= +inf; only a
+    # NaN index is missing.  (A repeated infinite threshold is refused: inf - inf is not >= 0.)
+    r = rng.random()
+    if r < 0.3:
+        thr = ([-INF] if r < 0.2 else []) + thr + ([INF] if r > 0.1 else [])
+        if rng.random() < 0.06:
+            thr = thr + [thr[-1]]
+        ctx.count("prop:infinite-threshold")
     if rng.random() < 0.05:
         thr = list(reversed(thr)) + [thr[0] + pow2(e), thr[0]]
     rd, pd = gens.rand_dimspec(rng, others, allow_bad=True)
@@ -680,12 +722,16 @@ def prop_level(ctx, ff, rng, i):
     # property: with everything reduced, the proportion is the fraction of valid index values >= threshold
     if impl[0] == "ok" and not sels and base[0] == "ok" and rd is None and pd is None:
         flat = [float(v) for v in np.asarray(base[1].values, float).ravel()]
-        for t in thr:
+        for k, t in enumerate(thr):
             spec = core.dec_num(ctx.model("c18_prop_spec", enc_list([enc_nums(flat), enc_num(t)])))
-            got = float(impl[1].sel(threshold=t).values.ravel()[0])
+            got = float(impl[1].isel(threshold=k).values.ravel()[0])
+            ctx.count("prop:spec")
             if not core.close(got, spec):
                 ctx.violation("proportion exceeding differs from the fraction of valid indices >= threshold",
                               dict(desc, index_values=flat, threshold=t), str(spec), got)
+            if np.isinf(t) and any(np.isfinite(flat)) and not any(np.isinf(flat)) and got != (1.0 if t < 0 else 0.0):
+                ctx.violation("proportion exceeding an infinite threshold: must be 1 at -inf and 0 at +inf whenever a valid index exists",
+                              dict(desc, index_values=flat, threshold=t), 1.0 if t < 0 else 0.0, got)
 
 
 def _num(x):
@@ -740,15 +786,18 @@ def kernel_sweeps(ctx):
                 ctx.violation("angular_difference differs from min(|a-b| mod 360, 360 - |a-b| mod 360)", {"a": a, "b": b}, spec, impl)
             if not core.close(impl, gen):
                 ctx.tie_fail("gen_angular_difference vs implementation", {"a": a, "b": b}, impl, str(gen))
-    grid = [NAN] + [float(Fraction(k, 2)) for k in range(-3, 4)]
+    grid = [NAN, -INF, INF] + [float(Fraction(k, 2)) for k in range(-3, 4)]
     for x in grid:
         for t in grid:
             gen = core.dec_num(ctx.model("c18_k_exceed", enc_list([enc_num(x), enc_num(t)])))
             impl = float(comparative_discretise(xr.DataArray([x]), float(t), ">=").values[0])
             spec = NAN if (np.isnan(x) or np.isnan(t)) else (1.0 if x >= t else 0.0)
             ctx.case(("kexc", x, t))
+            if np.isinf(x) or np.isinf(t):
+                ctx.count("kernel:exceed:infinite")
             if not core.close(impl, spec):
-                ctx.violation("comparative_discretise(>=) differs from 1{x >= t} with NaN preserved", {"x": x, "t": t}, spec, impl)
+                ctx.violation("comparative_discretise(>=) differs from 1{x >= t} with NaN preserved (only NaN is missing: an infinite value or "
+                              "threshold compares as usual)", {"x": x, "t": t}, spec, impl)
             if not core.close(impl, gen):
                 ctx.tie_fail("gen_c18_exceed vs implementation", {"x": x, "t": t}, impl, str(gen))
     ctx.count("kernel_grid_points", 4 * len(angles) + len(grid) ** 2)
